@@ -2,7 +2,7 @@
     iterate whose distance to the next one is at most [tol] (an ABSOLUTE distance).  For the
     scalar linear system x = a x + c with 0 <= a < 1 this determines how far the returned iterate
     can be from the least fixed point, whatever the magnitude of the values. *)
-From Coq Require Import QArith Bool List.
+From Coq Require Import QArith Qabs Qround Bool List.
 Local Open Scope Q_scope.
 
 Definition aff (a c x : Q) : Q := a * x + c.
@@ -18,3 +18,122 @@ Definition tol_check (x : Q * Q * Q * Q * Q) : nat :=
   if negb (Qle_bool 0 a && negb (Qle_bool 1 a) && Qle_bool 0 c && Qle_bool 0 tol) then 31%nat
   else if Qle_bool (xstar a c - tol / (1 - a) - delta) obs && Qle_bool obs (xstar a c + delta)
        then 0%nat else 1%nat.
+
+(** * The VECTOR / BLOCK case: x = A x + c over Q^n, Kleene iteration from 0 with the code's
+    stopping test.  (Theorems in Proofs/Tolerance_vec.v, Proofs/Tolerance_stop.v.)
+
+    [A] is a list of rows, vectors are lists; all operations truncate at the shorter argument, the
+    theorems state the length hypotheses they need. *)
+Import ListNotations.
+
+Fixpoint dot (r x : list Q) : Q :=
+  match r, x with a :: r', b :: x' => a * b + dot r' x' | _, _ => 0 end.
+Fixpoint vstep (A : list (list Q)) (c x : list Q) : list Q :=
+  match A, c with r :: A', ci :: c' => (dot r x + ci) :: vstep A' c' x | _, _ => [] end.
+Definition vzero (n : nat) : list Q := repeat 0 n.
+Fixpoint viter (A : list (list Q)) (c : list Q) (k : nat) : list Q :=
+  match k with O => vzero (length c) | S k => vstep A c (viter A c k) end.
+
+Definition qmax (x y : Q) : Q := if Qle_bool x y then y else x.
+Definition rowsum (r : list Q) : Q := fold_right Qplus 0 r.
+(** max-row-sum norm of a matrix with non-negative entries *)
+Definition mnorm (A : list (list Q)) : Q := fold_right (fun r m => qmax (rowsum r) m) 0 A.
+(** max (0, max_i (x_i - y_i)) *)
+Fixpoint voff (x y : list Q) : Q :=
+  match x, y with p :: x', q :: y' => qmax (p - q) (voff x' y') | _, _ => 0 end.
+Fixpoint qpow (a : Q) (k : nat) : Q := match k with O => 1 | S k => a * qpow a k end.
+
+(** ** the stopping test, as the code has it.
+    fixed_point: [while not x0.shouldStop(x1, tol) and k <= kmax]; [shouldStop = allclose]
+    (fggs/multi.py).  MultiTensor.allclose(self, other, tol): for every key of self present in
+    other, [t.allclose(other[k], atol=tol, rtol=0.)]; for a key present on one side only, the
+    present block is compared with the semiring's zero ([allclose_default(atol=tol, rtol=0.)]); a key
+    absent on both sides is not looked at.  With rtol = 0 torch.isclose(p, q) is
+    [p == q or (isfinite(|p - q|) and |p - q| <= atol)]: neither iterate is the reference (the
+    test is symmetric and ABSOLUTE), equal infinities are close, an infinity is far from
+    everything else.  For tol = 0 the code takes the [equal] branch, which is the same predicate
+    at tol = 0.  (NaN is outside this model: Real-semiring iterates of the systems considered
+    here are finite and non-negative.) *)
+Inductive xq := XFin (q : Q) | XPInf | XNInf.
+Definition xclose (tol : Q) (x y : xq) : bool :=
+  match x, y with
+  | XFin p, XFin q => Qle_bool (Qabs (p - q)) tol
+  | XPInf, XPInf => true
+  | XNInf, XNInf => true
+  | _, _ => false
+  end.
+Fixpoint forall2b {A : Type} (f : A -> A -> bool) (x y : list A) : bool :=
+  match x, y with
+  | [], [] => true
+  | a :: x', b :: y' => f a b && forall2b f x' y'
+  | _, _ => false
+  end.
+(** a block (the value of one nonterminal, flattened) is present or absent *)
+Definition block := option (list xq).
+(** [z] = the semiring's zero (0 for Real, -inf for Log) *)
+Definition block_close (z : xq) (tol : Q) (s o : block) : bool :=
+  match s, o with
+  | Some t, Some u => forall2b (xclose tol) t u
+  | Some t, None => forallb (fun e => xclose tol e z) t
+  | None, Some u => forallb (fun e => xclose tol e z) u
+  | None, None => true
+  end.
+(** a MultiTensor over a fixed list of keys = one block per key *)
+Definition mt_close (z : xq) (tol : Q) (X Y : list block) : bool := forall2b (block_close z tol) X Y.
+
+(** dense reading: an absent block of a key of shape [n] is [n] zeros *)
+Fixpoint dense (z : xq) (shapes : list nat) (X : list block) : list xq :=
+  match shapes, X with
+  | n :: shapes', b :: X' => (match b with Some t => t | None => repeat z n end) ++ dense z shapes' X'
+  | _, _ => []
+  end.
+Fixpoint wf_blocks (shapes : list nat) (X : list block) : bool :=
+  match shapes, X with
+  | [], [] => true
+  | n :: shapes', b :: X' => (match b with Some t => Nat.eqb (length t) n | None => true end) && wf_blocks shapes' X'
+  | _, _ => false
+  end.
+(** the same test on dense vectors of rationals *)
+Definition vclose (tol : Q) (x y : list Q) : bool :=
+  forall2b (fun p q => Qle_bool (Qabs (p - q)) tol) x y.
+
+(** explicit number of passes after which the test must have fired: ceil((C - tol) / (tol (1 - a))) *)
+Definition pass_bound (a tol C : Q) : nat := Z.to_nat (Qceiling ((C - tol) / (tol * (1 - a)))).
+
+(** verdict on the values [obs] (one per nonterminal) returned by
+    sum_products(method='fixed-point', tol=tol) for a grammar whose equations are x = A x + c, one
+    strongly connected component: [mu] is the fixed point computed outside (verified here:
+    mu == A mu + c, unique by [vfix_unique]).
+    0 = every obs_i within [mu_i - tol/(1-a) - delta, mu_i + delta] with a = mnorm A;
+    1 = some component outside; 31 = outside the guard (entries >= 0, a < 1, 0 <= tol, lengths);
+    32 = [mu] is not a fixed point (harness error) *)
+Definition vtol_check (x : list (list Q) * list Q * list Q * Q * Q * list Q) : nat :=
+  let '(A, c, mu, tol, delta, obs) := x in
+  let a := mnorm A in
+  if negb (forallb (forallb (Qle_bool 0)) A && forallb (Qle_bool 0) c && Qle_bool 0 tol
+           && negb (Qle_bool 1 a) && Nat.eqb (length A) (length c) && Nat.eqb (length mu) (length c)
+           && Nat.eqb (length obs) (length c))
+  then 31%nat
+  else if negb (forall2b Qeq_bool mu (vstep A c mu)) then 32%nat
+  else if forall2b (fun m o => Qle_bool (m - tol / (1 - a) - delta) o && Qle_bool o (m + delta)) mu obs
+       then 0%nat else 1%nat.
+
+(** * NONLINEAR monotone case: polynomial systems with non-negative coefficients over Q^n.
+    A monomial is (coefficient, list of variable indices, with repetition); a polynomial a list of
+    monomials; a system one polynomial per variable.  A variable index beyond the vector reads 0
+    (in every vector alike; the theorems hold with or without such indices). *)
+Definition pget (x : list Q) (i : nat) : Q := nth i x 0.
+Definition mono_val (x : list Q) (vs : list nat) : Q := fold_right (fun i p => pget x i * p) 1 vs.
+Definition poly_val (x : list Q) (p : list (Q * list nat)) : Q :=
+  fold_right (fun m s => fst m * mono_val x (snd m) + s) 0 p.
+Definition pstep (sys : list (list (Q * list nat))) (x : list Q) : list Q := map (poly_val x) sys.
+Fixpoint piter (sys : list (list (Q * list nat))) (k : nat) : list Q :=
+  match k with O => vzero (length sys) | S k => pstep sys (piter sys k) end.
+(** sum over the variables of the partial derivatives of a monomial at [mu] (= the directional
+    derivative along the all-ones vector): the contribution of the monomial to the row sum of
+    the Jacobian *)
+Fixpoint dmono_sum (mu : list Q) (vs : list nat) : Q :=
+  match vs with [] => 0 | i :: vs' => mono_val mu vs' + pget mu i * dmono_sum mu vs' end.
+(** row sum of the Jacobian of a polynomial at [mu] *)
+Definition dpoly_sum (mu : list Q) (p : list (Q * list nat)) : Q :=
+  fold_right (fun m s => fst m * dmono_sum mu (snd m) + s) 0 p.
